@@ -3,7 +3,7 @@
 TIER=${1:-quick}
 cd "$(dirname "$0")/.."
 for c in C01 C02 C03 C04 C05 C06 C07 C08 C09 C10 C11 C12 C13 C14 C15 C16 C17 C18 C19 C20; do
-  VERIF_DUMP=/tmp/$c.jsonl bin/check $c --tier $TIER > /tmp/$c.out 2>&1
+  bin/check $c --tier $TIER > /tmp/$c.out 2>&1
   rc=$?
   echo "rc=$rc $(tail -1 /tmp/$c.out) viol_groups=$(grep -c '^VIOLATION' /tmp/$c.out) known=$(grep -c '^KNOWN-FINDING' /tmp/$c.out)"
 done
